@@ -155,6 +155,10 @@ extern "C"
 
   static int model_cond_wait(pthread_cond_t* c, pthread_mutex_t* m)
   {
+    // scheduling point between the caller's predicate test and its registration as a waiter: the window in which a
+    // notification sent without the mutex is lost (the caller still holds the mutex here, so a notifier that takes the
+    // mutex cannot get in)
+    yield("cond_wait_enter");
     Waiter w;
     {
       ModelGuard g;
